@@ -242,7 +242,12 @@ EXTRA = {
 }
 
 
+EXTRA6 = {'C02': ' Traits whose class defines both magic handler names; a wildcard observer as a fifth mechanism.', 'C04': ' The owner object may be falsy; *= with an integer-like multiplier.', 'C05': ' A notifier that removes itself while being dispatched.', 'C06': " A notifier that removes itself while being dispatched; key and value validators that both coerce; the dict's contents at the moment every notifier is called.", 'C07': ' A notifier that removes itself while being dispatched; a validator that rejects its own results.', 'C08': ' A container trait assigned its own current value and then mutated.', 'C10': ' Also: Union whose first member has a copy default, a mapped trait with a default method and a shadow listener, a nested mutable inside a container default (known finding F67); half of the assignments are made before the first read.', 'C11': ' The local value may arrive with the constructor arguments.', 'C12': ' The object may be constructed with a keyword, so that dependency defaults materialise during initialisation.', 'C13': " Registering a handler on a name (the object gets its own copy of the governing trait) with a listener that declares all its names; the object's class may sit beside a diamond.", 'C14': ' A never-written write-once attribute on the image; round-tripped definitions are also deleted and assigned twice more.', 'C16': ' Bracket groups of Instance links and a node class with dynamic default initialisers.', 'C18': ' Deletion of stored values with a default that fails only for the deletion; set_default_value with every kind number; fields of one cTrait written again and again under a reference-count watch.', 'C19': ' A prototyped attribute with a ticking validator (set, bad set, delete, prototype changes).', 'C20': ' A one-shot handler may also drop another object in the middle of a propagation.'}
+
+
 def main():
+    for pid, extra in EXTRA6.items():
+        EXTRA[pid] = EXTRA.get(pid, "") + extra
     for pid, extra in EXTRA.items():
         if pid in CHECKS and extra not in CHECKS[pid]["text"]:
             CHECKS[pid]["text"] += extra
